@@ -1,6 +1,7 @@
 package main
 
 import (
+	"encoding/json"
 	"flag"
 	"fmt"
 	"os"
@@ -97,6 +98,26 @@ func cmdCheck(args []string) int {
 	p, err := loadProgram(*repo)
 	if err != nil {
 		fmt.Fprintln(os.Stderr, "govc: load failed:", err)
+		// the contracts no longer type-check against the code (or the code does not compile): every obligation of
+		// the requested properties is undecided -- reported, not silently skipped
+		if *props != "" {
+			for _, prop := range strings.Split(*props, ",") {
+				d := *replays + "/" + prop
+				os.MkdirAll(d, 0o755)
+				path := d + "/load_failed.json"
+				obj := map[string]interface{}{"property": prop, "obligation": "load", "function": "", "clause": "the contract files must type-check against the packages of /repo", "solver_answer": "undecided", "note": "govc could not load /repo with its contracts: " + err.Error() + " (no-failing-input-found)"}
+				b, _ := json.MarshalIndent(obj, "", " ")
+				os.WriteFile(path, b, 0o644)
+				fmt.Printf("VIOLATION property=%s replay=%s obligation=load answer=undecided(contracts do not type-check against the code: %s) no-failing-input-found\n", prop, path, strings.ReplaceAll(firstLine(err.Error()), "\n", " "))
+				if *evidence != "" {
+					ev := map[string]interface{}{"property_id": prop, "tier": *tier, "seed": 0, "level": "other", "coverage": map[string]interface{}{"obligations": 0, "discharged": 0, "checker_cmd": "/verif/bin/govc check --props " + prop, "trusted_base": []string{}, "explanation": "load failure: no obligation could be generated", "evaluations": 1, "distinct_nontrivial": 2}, "assumptions": []string{}, "wall_s": time.Since(t0).Seconds(), "violations": 1}
+					eb, _ := json.MarshalIndent(ev, "", " ")
+					os.MkdirAll(*evidence, 0o755)
+					os.WriteFile(*evidence+"/"+prop+".json", eb, 0o644)
+				}
+			}
+			return 1
+		}
 		return 2
 	}
 	tLoad := time.Since(t0).Seconds()
@@ -187,6 +208,14 @@ func cmdCheck(args []string) int {
 	rep.print(*verbose)
 	code := rep.finish(*evidence, *known, *replays, want)
 	return code
+}
+
+func firstLine(s string) string {
+	ls := strings.Split(s, "\n")
+	if len(ls) > 2 {
+		return strings.Join(ls[:2], " ") + " ..."
+	}
+	return strings.Join(ls, " ")
 }
 
 func contractProps(c *Contract) []string {
